@@ -273,6 +273,23 @@ def m_set_union(x, recv, args, e, p, site):
     u = _u(); yield p, SetV(z3.Lambda([u], z3.Or(recv.t[u], as_set(args[0])[u])))
 
 
+@method('.index', 'const', 'tuple')
+def m_index(x, recv, args, e, p, site):
+    """tuple.index(v) on a literal tuple (module-level constant re-read from source): position of the first equal element, ValueError if none"""
+    if len(args) != 1: raise Unsupported(site + ' index with bounds')
+    items = [E.Const(i) for i in recv.x] if recv.sort == 'const' else list(recv.x)
+    if recv.sort == 'const' and not isinstance(recv.x, (tuple, list)): raise Unsupported(site + ' index on ' + type(recv.x).__name__)
+    before = []
+    for i, it in enumerate(items):
+        eqs = [r.t for _, r in x.compare_narrow(ast.Eq(), args[0], it, p, site)]
+        if len(eqs) != 1: raise Unsupported(site + ' index: element comparison forks')
+        q = p.fork(*before, eqs[0])
+        if sat(q.pc): yield q, Int(i)
+        before.append(z3.Not(eqs[0]))
+    q = p.fork(*before)
+    if sat(q.pc): yield q, Exc('ValueError', site)
+
+
 # ------------------------------------------------------------------ str methods
 @method('.startswith', 'str')
 def m_startswith(x, recv, args, e, p, site):
